@@ -343,6 +343,11 @@ impl Oracle for C20 {
             }
         }
     }
+    fn settle(&self, w: &mut World) {
+        // the fee computation fills the fee cache and the per-block fee rates: it is part of
+        // every step, so that the probe below is free of side effects
+        let _ = w.fee_percentiles();
+    }
     fn on_state(&self, w: &mut World, _mon: &mut Mon, hist: &[Ev], out: &mut Out) {
         out.distinct.insert(fp64(&crate::world::state_bytes(true)));
         check_bookkeeping(w, out);
